@@ -102,6 +102,9 @@ def case_uniform(ctx, rng, idx):
     case_random(ctx, rng, idx, uniform=True)
 
 
+SATURATED = {10: [1046]}  # case index -> numpy seeds found by search on the pinned tree: 124 717 and 125 693 draws until all 10 pairs on 5 nodes are there
+
+
 def case_scale_free(ctx, rng, idx):
     from hypergraphx.generation.scale_free import scale_free_hypergraph
     from math import comb
@@ -109,6 +112,8 @@ def case_scale_free(ctx, rng, idx):
     n = rng.randint(4, 14)
     sizes = rng.sample(range(2, min(5, n) + 1), rng.randint(1, min(3, n - 1)))
     by = {s: rng.randint(0, min(8, comb(n, s) // 2)) for s in sizes}
+    # (requests for EVERY node set of one size are only made with seeds known to terminate, see SATURATED: the pinned tree
+    # keeps drawing until it has them all, which for an unlucky draw of the node weights takes unboundedly long)
     if rng.random() < 0.2:  # dense but satisfiable request on few nodes (many rejected duplicate draws)
         n = rng.randint(7, 10)
         sizes = [2, 3][: rng.randint(1, 2)]
@@ -122,6 +127,11 @@ def case_scale_free(ctx, rng, idx):
         kw["corr_target"] = rng.choice([0.0, 0.3, 0.8, 1.0])
     elif variant == "shuffles":
         kw["num_shuffles"] = rng.randint(1, 5)
+    seeds = [rng.randrange(10**6), rng.randrange(10**6), rng.randrange(10**6)]
+    if idx in SATURATED:
+        n, sizes, by, scale, kw, variant = 5, [2], {2: 10}, {2: 1.0}, {}, "default"
+        seeds = SATURATED[idx]  # outcomes in which one node's weight is tiny: more than 1e5 draws are needed for the last pair
+        ctx.event("saturated-request-with-a-nearly-unreachable-node-set")
     shared_by, shared_scale = dict(by), dict(scale)  # one parameter object reused over the realisations, as callers do
     if len(sizes) >= 2 and rng.random() < 0.5:
         # the two mappings are keyed by size; nothing says they must list the sizes in the same order
@@ -131,7 +141,7 @@ def case_scale_free(ctx, rng, idx):
         ks = list(by)
         rng.shuffle(ks)
         shared_by = {k_: by[k_] for k_ in ks}
-    for seed in (rng.randrange(10**6), rng.randrange(10**6), rng.randrange(10**6)):
+    for seed in seeds:
         def wit(extra=None):
             return {"fn": "scale_free_hypergraph", "n": n, "edges_by_size": by, "scale_by_size": scale, "kwargs": kw, "numpy_seed": seed, "extra": repr(extra)[:600]}
 
